@@ -627,9 +627,6 @@ class Node:
             # Iterate a copy: we must not modify the child list of the source
             # tree (note: `True` is an `int` as well).
             topnodes = list(child._root.children)
-            if isinstance(before, int) and before is not False:
-                # Inserting at a fixed index: add in reverse order to keep the order
-                topnodes.reverse()
             # Refuse before adding anything if a node would collide with a child
             own_ids = {n._data_id for n in self.children}
             for n in topnodes:
@@ -637,8 +634,17 @@ class Node:
                     raise UniqueConstraintError(
                         f"Node.data already exists in parent: {n}"
                     )
-            for n in topnodes:
-                self.add_child(n, before=before, deep=deep)
+            if isinstance(before, int) and before is not False:
+                # Resolve the index once (like `list.insert()` does), then
+                # insert the nodes one after the other to keep their order
+                n_children = len(self.children)
+                idx = 0 if before is True else int(before)  # True: prepend
+                idx = max(0, n_children + idx) if idx < 0 else min(idx, n_children)
+                for i, n in enumerate(topnodes):
+                    self.add_child(n, before=idx + i, deep=deep)
+            else:
+                for n in topnodes:
+                    self.add_child(n, before=before, deep=deep)
             return n  # need to return a node
 
         source_node = None
